@@ -23,7 +23,7 @@ func init() {
 		ID: "C16",
 		Rule: "ground-truth polygon sets on the integer lattice (1..3 disjoint outers: rectangles, L-shapes, octagons; 0..2 rectangular holes each, strictly inside; no vertex at 0,0) cut at every/random vertex subsets into 1..5 pieces per ring, each piece reversed or not, members shuffled, coordinates from node objects or from annotated way nodes, members with correct orientation annotations or none, relation with or without own tags (old-style single outer); small instances enumerate all cut/reverse choices; " +
 			"non-trivial = at least 3 member ways; distinct = distinct op line",
-		Gen:   c16Gen,
+		Gen: c16Gen,
 		Exec: func(op string) (string, *Violation) {
 			if strings.HasPrefix(op, "orient ") {
 				return c16OrientExec(op)
@@ -180,10 +180,10 @@ func c16Shape(r *Rng, ox, oy int) (ring [][2]int, holeBox [4]int) {
 }
 
 type c16Piece struct {
-	pts   [][2]int
-	role  string
-	fwd   bool // runs in the ring's stored direction
-	ccwR  bool // the ring as stored is counter-clockwise
+	pts  [][2]int
+	role string
+	fwd  bool // runs in the ring's stored direction
+	ccwR bool // the ring as stored is counter-clockwise
 }
 
 func c16Cut(r *Rng, ring [][2]int, role string, ccw bool, maxPieces int, cutsMask, revMask int) []c16Piece {
